@@ -44,4 +44,60 @@ def assignByKeyFrom (k0 : Nat) (t : List Rat) (ys : List Int) (a : List Rat) : L
 
 def assignByKey (t : List Rat) (ys keys : List Int) (a : List Rat) : List Rat := assignByKeyFrom 0 t ys a keys
 
+/-! ### additions for ISIMIP step 1 / step 2 / step 8 (tier A, part 2) -/
+
+/-- `x[i]` for an integer `i` (Python / numpy: a negative index counts from the end; `IndexError` outside `[-n, n)`) -/
+def getIdx {α} (x : List α) (i : Int) : Except String α :=
+  let n : Int := (x.length : Int)
+  let j : Int := if i < 0 then i + n else i
+  if 0 ≤ j ∧ j < n then
+    match x[j.toNat]? with
+    | some v => .ok v
+    | none => .error "IndexError"
+  else .error "IndexError"
+
+/-- `x[idx]` for an integer array `idx` (fancy indexing; `IndexError` when one index is out of range) -/
+def takeIdx {α} (x : List α) (idx : List Int) : Except String (List α) := idx.mapM (getIdx x)
+
+/-- `x[idx]` for an array of non-negative indices (`argsort` output) -/
+def takeNat {α} (x : List α) (idx : List Nat) : Except String (List α) :=
+  idx.mapM (fun i => match x[i]? with | some v => .ok v | none => .error "IndexError")
+
+/-- `np.where(m, a, b)` for arrays of one shape (a scalar operand is broadcast by the reader: `m.map (fun _ => s)`) -/
+def npWhere {α} (m : List Bool) (a b : List α) : List α :=
+  List.zipWith (fun c p => if c then p.1 else p.2) m (a.zip b)
+
+/-- `for k, v in enumerate(keys): <body that may end in out[k] = E>` where the body does not read `out`:
+    `f k v = ok none` = nothing written in that iteration, `ok (some r)` = `out[k] = r` (`IndexError` when `k` is not an
+    index of `out`), `error e` = the body raised.  Iterations in order, `k` counted from `k0`. -/
+def enumAssignFrom (f : Nat → Int → Except String (Option Rat)) : Nat → List Rat → List Int → Except String (List Rat)
+  | _, out, [] => .ok out
+  | k0, out, v :: vs =>
+    match f k0 v with
+    | .error e => .error e
+    | .ok none => enumAssignFrom f (k0 + 1) out vs
+    | .ok (some r) => if k0 < out.length then enumAssignFrom f (k0 + 1) (out.set k0 r) vs else .error "IndexError"
+
+def enumAssign (out : List Rat) (keys : List Int) (f : Nat → Int → Except String (Option Rat)) : Except String (List Rat) :=
+  enumAssignFrom f 0 out keys
+
+/-- maximum of a non-empty segment (`0` on the empty list, which the callers exclude) -/
+def maxOf : List Rat → Rat
+  | [] => 0
+  | a :: t => t.foldl max a
+
+/-- `np.unique(x, return_index=True)`: the distinct values in ascending order and, for each, the index of its first
+    occurrence in `x` -/
+def uniqueIndex (x : List Int) : List Int × List Nat :=
+  let u := (x.mergeSort (fun a b => decide (a ≤ b))).eraseDups
+  (u, u.map (fun v => x.idxOf v))
+
+/-- `np.maximum.reduceat(x, idx)`: entry `k` is `max(x[idx[k]:idx[k+1]])` (`x[idx[k]:]` for the last `k`), or `x[idx[k]]`
+    when `idx[k] >= idx[k+1]`; `IndexError` when an index is not `< len(x)` -/
+def reduceatMax (x : List Rat) (idx : List Nat) : Except String (List Rat) :=
+  (idx.zip (idx.drop 1 ++ [x.length])).mapM (fun p =>
+    if p.1 < x.length then
+      .ok (if p.1 < p.2 then maxOf ((x.drop p.1).take (p.2 - p.1)) else x.getD p.1 0)
+    else .error "IndexError")
+
 end PyElem
